@@ -9,7 +9,7 @@ export VERIF_REPO=$R
 sed -i "s#=> /repo#=> $R#" harness/go.mod
 ./check setup > setup.log 2>&1 || { echo "setup failed" > $OUT; tail -20 setup.log >> $OUT; exit 1; }
 : > $OUT
-for d in seeded/*/; do
+for d in $PWD/seeded/*/; do
   s=$(basename $d); p=${s%_*}
   echo $s | grep -Eq "$RE" || continue
   if ! git -C $R apply --check $d/patch.diff 2>/dev/null; then echo "$s $p patch-does-not-apply" >> $OUT; continue; fi
